@@ -33,6 +33,10 @@ pub fn legal(ctx: ReqCtx, p: &Prop) -> Legal {
         (PVal::Var(v), 0x0B) => *v >= 1 && *v <= 268_435_455,
         (PVal::U16(v), 0x21 | 0x23) => *v != 0,
         (PVal::U32(v), 0x27) => *v != 0,
+        // a string or binary field longer than 65535 bytes cannot be encoded at all
+        (PVal::Str(v), _) => v.len() <= 65535,
+        (PVal::Bin(v), _) => v.len() <= 65535,
+        (PVal::Pair(k, v), _) => k.len() <= 65535 && v.len() <= 65535,
         _ => true,
     };
     let allowed = match ctx {
@@ -97,6 +101,19 @@ pub fn samples(id: u8) -> Vec<Prop> {
     }
 }
 
+/// A field longer than 65535 bytes: not encodable. minimq notices it only while encoding, after
+/// it has drained older outbound work and checked its resources, so neither the error kind nor
+/// quiescence is pinned for such a request - only that it is refused, leaves nothing on the wire
+/// and does not change what the session accepts next.
+fn overlong(p: &Prop) -> bool {
+    match &p.val {
+        PVal::Str(v) => v.len() > 65535,
+        PVal::Bin(v) => v.len() > 65535,
+        PVal::Pair(k, v) => k.len() > 65535 || v.len() > 65535,
+        _ => false,
+    }
+}
+
 fn ctx_name(c: ReqCtx) -> &'static str {
     match c {
         ReqCtx::Publish => "publish",
@@ -137,7 +154,7 @@ fn judge(w: &mut World, ctx: ReqCtx, p: &Prop, res: &Res, live: bool) {
                 ReqCtx::Publish => matches!(res, Res::NotReady | Res::BufferTooSmall),
                 _ => matches!(res, Res::NotReady | Res::BufferTooSmall | Res::InflightExhausted),
             };
-            if resource {
+            if resource && !overlong(p) {
                 w.violate_force(
                     "C19",
                     format!("illegal-refused-with-resource-error/{}/{}", ctx_name(ctx), res.name()),
@@ -158,106 +175,26 @@ fn judge(w: &mut World, ctx: ReqCtx, p: &Prop, res: &Res, live: bool) {
     }
 }
 
-/// A small legal SUBSCRIBE whose identifier is learnt from its first transmission: the two ends of
-/// the bracket around a refused request.
-fn bracket_request(conn: &mut Conn<'_, '_>) -> (Res, Option<u16>) {
-    let mut spec = with(gen_subscribe);
-    spec.filters.truncate(1);
-    spec.props.clear();
-    let size = 8 + spec.filters.iter().map(|f| f.filter.len() + 3).sum::<usize>();
-    if !with(|w| guard_room(w, size)) {
-        return (Res::BufferTooSmall, None);
-    }
-    let r = do_subscribe(conn, &spec);
-    let id = with(|w| w.reqs.last().filter(|q| q.tag == spec.tag && q.accept == crate::world::Accept::Accepted).and_then(|q| q.id));
-    (r.clone(), if r == Res::OkOp { id } else { None })
-}
-
-/// "Leaves no trace": a request refused as invalid must not have consumed a packet identifier.
-/// `a` and `b` are the identifiers of two accepted requests issued directly before and after it:
-/// every identifier skipped between them must belong to an operation that is still unresolved.
-fn check_bracket(w: &mut World, a: u16, b: u16, what: &str) {
-    if w.cut || w.ids_ambiguous {
-        return;
-    }
-    w.probe("refused_request_identifier_bracket");
-    let ep = w.epoch;
-    let in_use = |w: &World, x: u16| w.reqs.iter().any(|r| r.epoch == ep && !r.invalidated && r.id == Some(x) && r.accept != crate::world::Accept::NotAccepted && !matches!(r.phase, crate::world::Phase::Done(_)));
-    let mut x = a;
-    for _ in 0..70_000u32 {
-        x = if x == 65535 { 1 } else { x + 1 };
-        if x == b {
-            return;
-        }
-        if !in_use(w, x) {
-            w.violate(
-                "C19",
-                format!("refused-request-consumed-an-identifier/{what}"),
-                format!("the accepted requests directly before and after a request refused as invalid carry identifiers {a} and {b}, but identifier {x} in between belongs to no operation in flight: the refused request left a trace in the identifier counter"),
-            );
-            return;
-        }
-    }
-}
-
-/// One invalid-or-boundary request at a random point of a run (a quarter of them bracketed by two
-/// accepted requests, see `check_bracket`). Returns the operation result so that the caller can
-/// treat fatal results as usual.
+/// One invalid-or-boundary request at a random point of a run. Returns the operation result so
+/// that the caller can treat fatal results as usual.
 pub fn invalid_probe(conn: &mut Conn<'_, '_>) -> Res {
-    let bracket = conn.is_connected() && with(|w| !w.cut && !w.ids_ambiguous && w.tape.chance(1, 4));
-    let mut a = None;
-    if bracket {
-        let (r, id) = bracket_request(conn);
-        if r.is_fatal() || !conn.is_connected() {
-            return r;
-        }
-        a = id;
-    }
-    let res = invalid_probe_inner(conn);
-    if let (Some(a), true) = (a, res == Res::InvalidRequest && conn.is_connected()) {
-        let (r, id) = bracket_request(conn);
-        if let Some(b) = id {
-            with(|w| check_bracket(w, a, b, "random-probe"));
-        }
-        if r.is_fatal() {
-            return r;
-        }
-    }
-    res
-}
-
-/// One table entry (C19), bracketed like `invalid_probe` in a quarter of the cases.
-pub fn forced_probe(conn: &mut Conn<'_, '_>, ctx: ReqCtx, prop: &Prop) -> Res {
-    let bracket = conn.is_connected() && with(|w| !w.cut && !w.ids_ambiguous && w.tape.chance(1, 4));
-    let mut a = None;
-    if bracket {
-        let (r, id) = bracket_request(conn);
-        if r.is_fatal() || !conn.is_connected() {
-            return r;
-        }
-        a = id;
-    }
-    let res = forced_probe_inner(conn, ctx, prop);
-    if let (Some(a), true) = (a, res == Res::InvalidRequest && conn.is_connected()) {
-        let (r, id) = bracket_request(conn);
-        if let Some(b) = id {
-            with(|w| check_bracket(w, a, b, ctx_name(ctx)));
-        }
-        if r.is_fatal() {
-            return r;
-        }
-    }
-    res
-}
-
-/// (the probe itself)
-fn invalid_probe_inner(conn: &mut Conn<'_, '_>) -> Res {
     let (which, prop) = with(|w| {
         w.probe("invalid_request_probe");
         let which = w.tape.choose(6);
         let id = ALL_PROP_IDS[w.tape.choose(27) as usize];
         let s = samples(id);
-        let p = s[w.tape.choose(s.len() as u32) as usize].clone();
+        let mut p = s[w.tape.choose(s.len() as u32) as usize].clone();
+        // one probe in eight carries a field that is one byte too long to be encoded: an
+        // illegal value of an otherwise legal property, noticed only while encoding
+        if w.tape.chance(1, 8) {
+            p.val = match &p.val {
+                PVal::Str(_) => PVal::Str("s".repeat(65_536)),
+                PVal::Bin(_) => PVal::Bin(vec![0xB1; 65_536]),
+                PVal::Pair(k, _) => PVal::Pair(k.clone(), "v".repeat(65_536)),
+                other => other.clone(),
+            };
+            w.probe("invalid_probe_overlong_field");
+        }
         (which, p)
     });
     // (a run that was cut before this probe is not judged; one that is cut *by* this probe's own
@@ -353,21 +290,25 @@ fn invalid_probe_inner(conn: &mut Conn<'_, '_>) -> Res {
             r
         }
     };
-    if live && conn.is_connected() && res == Res::InvalidRequest {
+    let refused = matches!(res, Res::InvalidRequest | Res::BufferTooSmall | Res::NotReady | Res::InflightExhausted | Res::PacketTooLarge);
+    if live && conn.is_connected() && refused {
         let after = (
             conn.session().is_publish_quiescent(),
             conn.can_publish(QoS::AtMostOnce),
             conn.can_publish(QoS::AtLeastOnce),
             conn.can_publish(QoS::ExactlyOnce),
         );
-        // publish() drains older outbound work before it validates, which may legitimately
-        // change quiescence; subscribe/unsubscribe/disconnect validate first.
-        if after != snapshot && which >= 2 {
+        // publish() drains older outbound work before it validates, and so does every request
+        // whose defect is noticed only while encoding (over-long field): that may legitimately
+        // change quiescence. What the session accepts next must not change in any case.
+        let quiescence_pinned = which >= 2 && res == Res::InvalidRequest && !overlong(&prop);
+        let changed = if quiescence_pinned { after != snapshot } else { (after.1, after.2, after.3) != (snapshot.1, snapshot.2, snapshot.3) };
+        if changed {
             with(|w| {
                 w.violate(
                     "C19",
                     "refused-request-changed-state".into(),
-                    format!("quiescence/can_publish changed from {:?} to {:?} across a refused request", snapshot, after),
+                    format!("quiescence/can_publish changed from {:?} to {:?} across a request refused with {}", snapshot, after, res.name()),
                 )
             });
         }
@@ -429,7 +370,7 @@ pub fn will_table(w: &mut World) {
 }
 
 /// One table entry (C19): issue a request of kind `ctx` carrying exactly `prop`.
-fn forced_probe_inner(conn: &mut Conn<'_, '_>, ctx: ReqCtx, prop: &Prop) -> Res {
+pub fn forced_probe(conn: &mut Conn<'_, '_>, ctx: ReqCtx, prop: &Prop) -> Res {
     // (a run that was cut before this probe is not judged; one that is cut *by* this probe's own
     // packet - the reference decoder rejecting what was sent - still is)
     let live = conn.is_connected() && !with(|w| w.cut);
@@ -494,9 +435,11 @@ fn forced_probe_inner(conn: &mut Conn<'_, '_>, ctx: ReqCtx, prop: &Prop) -> Res 
             r
         }
     };
-    if live && conn.is_connected() && res == Res::InvalidRequest && ctx != ReqCtx::Publish {
+    let refused = matches!(res, Res::InvalidRequest | Res::BufferTooSmall | Res::NotReady | Res::InflightExhausted | Res::PacketTooLarge);
+    if live && conn.is_connected() && refused && ctx != ReqCtx::Publish {
         let after = (conn.session().is_publish_quiescent(), conn.can_publish(QoS::AtLeastOnce));
-        if after != snapshot {
+        let quiescence_pinned = res == Res::InvalidRequest && !overlong(prop);
+        if if quiescence_pinned { after != snapshot } else { after.1 != snapshot.1 } {
             with(|w| w.violate("C19", "refused-request-changed-state".into(), format!("quiescence/can_publish changed from {:?} to {:?} across a refused request", snapshot, after)));
         }
     }
